@@ -4,8 +4,9 @@
    Property theorems only; proofs in proofs/MctsGenEq.v.  Trusted instead of
    the sampling of these three functions: model/PySem.v + model/MctsSem.v
    (validated against CPython / torch on every run) and the translator.
-   MCTS.descend (sampling) and MCTS.analyze_tree (the loop, the time limit)
-   are NOT translated: they stay tied by C08's trace correspondence. *)
+   The search loop (descend, analyze_tree, analyze, get_move, select_root_move,
+   tree_probs) is translated too: second part of this file
+   (proofs/MctsGenSearch.v); the time limit stays a symbolic clock. *)
 From Coq Require Import ZArith QArith List Bool.
 From Coq Require Import Floats.SpecFloat.
 From TV Require Import model.Tak model.Road model.PySem model.Mcts model.MctsSem model.Solver model.LambdaF64.
